@@ -26,8 +26,8 @@ def main():
 
     width = os.environ.get("DOCTRANS_LINE_LENGTH")
     rng = random.Random(seed)
-    g = IRGen(rng, knobs(p_long_doc=0.35, p_long_summary=0.35, p_doc_states_default=0.4))
-    ga = IRGen(rng, knobs(p_long_doc=0.35, p_long_summary=0.35, argparse_domain=True, p_doc_states_default=0.4))
+    g = IRGen(rng, knobs(p_long_doc=0.35, p_long_summary=0.35, p_doc_states_default=0.4, p_hyphen_tokens=0.5))
+    ga = IRGen(rng, knobs(p_long_doc=0.35, p_long_summary=0.35, argparse_domain=True, p_doc_states_default=0.4, p_hyphen_tokens=0.5))
     spaces = {k: [o for o in option_space(k) if o.get("word_wrap")] for k in ALL_KINDS}
     counts = {"cases": 0, "emit_ok": 0, "compared": 0, "max_line": 0, "lines_over_width": 0, "line_length_type": type(pu.line_length).__name__}
     for i in range(n):
